@@ -11,6 +11,7 @@
 //!   # ...          statistics
 mod fam_readn;
 mod fam_sdeque;
+mod fam_sorted;
 mod util;
 
 use std::io::Write;
@@ -21,6 +22,7 @@ fn families() -> Vec<Box<dyn Family>> {
     vec![
         Box::new(fam_readn::ReadNFamily),
         Box::new(fam_sdeque::SDequeFamily),
+        Box::new(fam_sorted::SortedFamily),
     ]
 }
 
